@@ -288,4 +288,228 @@ example : emitOrder 10 [(5, 1), (0, 2), (9, 3), (5, 4), (0, 5)] = [(0, 2), (0, 5
 example : runLoop 10 3 100 0 = (4, 12) := by decide
 example : (ceilDiv (10 - 0) 3).toNat = 4 := by decide
 
+/-! ## LESSONS audit: explicit step sizes, the whole `simulate` operation, split runs -/
+
+/-- Sim-level `step()` with the log: the four events are appended in order, each stamped with the clock the step
+started from, and nothing else is logged -/
+theorem call_step_running_log (s : Sim) (h : Running s) :
+    ∃ s', call "step" s = .ok s' ∧ Running s' ∧ s'.ctl.st = "collect_metrics" ∧ s'.clock = s.clock + s.step ∧
+      s'.step = s.step ∧ s'.stop = s.stop ∧
+      s'.ctl.log = s.ctl.log ++ ["emit:time_step__prepare"] ++ ["emit:time_step"] ++ ["emit:time_step__cleanup"] ++
+                   ["emit:collect_metrics"] ∧
+      s'.tlog = s.tlog ++ [s.clock] ++ [s.clock] ++ [s.clock] ++ [s.clock] := by
+  obtain ⟨⟨st, sd, cr, fr, log, fo⟩, clock, step, stop, tlog⟩ := s
+  obtain ⟨hst, hsd, hcr, hfo⟩ := h
+  simp only at hst hsd hcr hfo
+  subst hsd hcr hfo
+  rcases hst with rfl | rfl
+  · exact ⟨_, rfl, ⟨Or.inr rfl, rfl, rfl, rfl⟩, rfl, rfl, rfl, rfl, rfl, rfl⟩
+  · exact ⟨_, rfl, ⟨Or.inr rfl, rfl, rfl, rfl⟩, rfl, rfl, rfl, rfl, rfl, rfl⟩
+
+/-- the events one step adds, with their clocks (the log and its clock column have the same length in every
+state the model reaches) -/
+theorem newEvents_of_append (s s' : Sim) (evs : List String) (cs : List Int)
+    (hlen : s.tlog.length = s.ctl.log.length)
+    (hl : s'.ctl.log = s.ctl.log ++ evs) (ht : s'.tlog = s.tlog ++ cs) :
+    newEvents s s' = evs.zip cs := by
+  unfold newEvents
+  rw [hl, ht, List.zip_append hlen.symm]
+  have : (s.ctl.log.zip s.tlog).length = s.ctl.log.length := by simp [List.length_zip, hlen]
+  rw [← this, List.drop_left]
+
+theorem step_events (s s' : Sim) (h : Running s) (hlen : s.tlog.length = s.ctl.log.length)
+    (hc : call "step" s = .ok s') :
+    newEvents s s' = [("emit:time_step__prepare", s.clock), ("emit:time_step", s.clock),
+                      ("emit:time_step__cleanup", s.clock), ("emit:collect_metrics", s.clock)] ∧
+    s'.tlog.length = s'.ctl.log.length := by
+  obtain ⟨s1, hc1, _, _, _, _, _, hl, ht⟩ := call_step_running_log s h
+  rw [hc] at hc1; cases hc1
+  constructor
+  · rw [newEvents_of_append s s' ["emit:time_step__prepare", "emit:time_step", "emit:time_step__cleanup", "emit:collect_metrics"]
+      [s.clock, s.clock, s.clock, s.clock] hlen (by rw [hl]; simp) (by rw [ht]; simp)]
+    rfl
+  · rw [hl, ht]; simp [hlen]
+
+/-- `InteractiveContext.step(x)` (no per-simulant clocks) from a running context: the four events are emitted at
+the clock the step started from, the clock advances by exactly `x`, and the old global step is back afterwards -/
+theorem explicit_step_running (x : Int) (s : Sim) (h : Running s) (hlen : s.tlog.length = s.ctl.log.length) :
+    ∃ s', stepWithSize x s = .ok s' ∧ Running s' ∧ s'.clock = s.clock + x ∧ s'.step = s.step ∧ s'.stop = s.stop ∧
+      newEvents s s' = [("emit:time_step__prepare", s.clock), ("emit:time_step", s.clock),
+                        ("emit:time_step__cleanup", s.clock), ("emit:collect_metrics", s.clock)] ∧
+      s'.tlog.length = s'.ctl.log.length := by
+  have hr : Running { s with step := x } := h
+  obtain ⟨s1, hc1, hr1, _, hclk, _, hstop, _, _⟩ := call_step_running_log { s with step := x } hr
+  obtain ⟨hev, hlen1⟩ := step_events { s with step := x } s1 hr hlen hc1
+  refine ⟨{ s1 with step := s.step }, ?_, hr1, hclk, rfl, hstop, hev, hlen1⟩
+  have hsd : s.ctl.setupDone = true := h.2.1
+  simp only [stepWithSize, hsd, Bool.not_true, Bool.false_and, Bool.false_eq_true, if_false, hc1]
+
+/-- every listener call made for events emitted under the global step `x` carries `step_size = x` and
+`time = clock + x`, on the clock of one of those events -/
+theorem expandEvents_fields (nb : Nat) (regs : List CReg) (x : Int) (evs : List (String × Int)) :
+    ∀ c ∈ expandEvents nb regs x evs, c.step = x ∧ c.time = c.clock + x ∧ ∃ e ∈ evs, c.clock = e.2 := by
+  intro c hc
+  simp only [expandEvents, List.mem_flatMap] at hc
+  obtain ⟨⟨e, t⟩, he, hc⟩ := hc
+  split at hc
+  · obtain ⟨_, h2, h3, h4⟩ := deliver_fields nb regs _ t x c hc
+    exact ⟨h4, by rw [h3, h2], ⟨(e, t), he, h2⟩⟩
+  · cases hc
+
+/-- an explicit step of ANY size: every listener call of it carries the size passed, a time equal to the clock the
+step started from plus that size, and that clock -/
+theorem explicit_step_calls (nb : Nat) (regs : List CReg) (x : Int) (s s' : Sim) (h : Running s)
+    (hlen : s.tlog.length = s.ctl.log.length) (hs : stepWithSize x s = .ok s') :
+    ∀ c ∈ expandEvents nb regs x (newEvents s s'), c.step = x ∧ c.time = s.clock + x ∧ c.clock = s.clock := by
+  obtain ⟨s1, hs1, _, _, _, _, hev, _⟩ := explicit_step_running x s h hlen
+  rw [hs] at hs1; cases hs1
+  intro c hc
+  obtain ⟨h1, h2, e, he, h3⟩ := expandEvents_fields nb regs x _ c hc
+  rw [hev] at he
+  have : e.2 = s.clock := by
+    simp only [List.mem_cons, List.mem_nil_iff, or_false] at he
+    rcases he with rfl | rfl | rfl | rfl <;> rfl
+  rw [this] at h3
+  exact ⟨h1, by rw [h2, h3], h3⟩
+
+/-- `run()` keeps the context running and, when it takes at least one step, rests in collect_metrics -/
+theorem ctx_run_running (fuel : Nat) (s : Sim) (h : Running s) :
+    ∃ s', Viv.Ctx.run fuel s = .ok s' ∧ Running s' ∧ s'.clock = (runLoop s.stop s.step fuel s.clock).2 ∧
+      s'.step = s.step ∧ s'.stop = s.stop ∧
+      (0 < (runLoop s.stop s.step fuel s.clock).1 → s'.ctl.st = "collect_metrics") := by
+  induction fuel generalizing s with
+  | zero => exact ⟨s, rfl, h, rfl, rfl, rfl, by intro h0; simp [runLoop] at h0⟩
+  | succ n ih =>
+    have hsd : s.ctl.setupDone = true := h.2.1
+    by_cases hlt : s.clock < s.stop
+    · obtain ⟨s1, hc, hr, hst, hclk, hstep, hstop, _, _⟩ := call_step_running_log s h
+      obtain ⟨s2, hrun, hr2, h2clk, h2step, h2stop, h2st⟩ := ih s1 hr
+      refine ⟨s2, ?_, hr2, ?_, by rw [h2step, hstep], by rw [h2stop, hstop], ?_⟩
+      · simp only [Viv.Ctx.run, hsd, cmpHolds, gen_run_cmp]
+        simp [hlt, hc, hrun]
+      · rw [h2clk, hclk, hstep, hstop]
+        simp only [runLoop, hlt, if_true]
+      · intro _
+        by_cases h0 : 0 < (runLoop s1.stop s1.step n s1.clock).1
+        · exact h2st h0
+        · -- no further step: `run n s1` returned `s1` itself … which rests in collect_metrics
+          have hz : (runLoop s1.stop s1.step n s1.clock).1 = 0 := by omega
+          have : s2 = s1 := by
+            cases n with
+            | zero => simp only [Viv.Ctx.run] at hrun; cases hrun; rfl
+            | succ m =>
+              have hsd1 : s1.ctl.setupDone = true := hr.2.1
+              by_cases hlt1 : s1.clock < s1.stop
+              · simp only [runLoop, hlt1, if_true] at hz; omega
+              · simp only [Viv.Ctx.run, hsd1, cmpHolds, gen_run_cmp] at hrun
+                simp [hlt1] at hrun
+                exact hrun.symm
+          rw [this]; exact hst
+    · refine ⟨s, ?_, h, ?_, rfl, rfl, ?_⟩
+      · simp only [Viv.Ctx.run, hsd, cmpHolds, gen_run_cmp]
+        simp [hlt]
+      · simp only [runLoop, hlt, if_false]
+      · intro h0; simp only [runLoop, hlt, if_false] at h0; omega
+
+/-- `finalize()` then `report()` from a context resting in collect_metrics: simulation_end and report are emitted
+once each, the clock does not move -/
+theorem finalize_report (s : Sim) (hst : s.ctl.st = "collect_metrics") (hr : Running s) :
+    ∃ s1 s2, call "finalize" s = .ok s1 ∧ call "report" s1 = .ok s2 ∧ s2.ctl.st = "report" ∧ s2.clock = s.clock ∧
+      s2.ctl.log = s.ctl.log ++ ["emit:simulation_end"] ++ ["emit:report"] := by
+  obtain ⟨⟨st, sd, cr, fr, log, fo⟩, clock, step, stop, tlog⟩ := s
+  obtain ⟨_, hsd, hcr, hfo⟩ := hr
+  simp only at hst hsd hcr hfo
+  subst hst hsd hcr hfo
+  exact ⟨_, _, rfl, rfl, rfl, rfl, rfl⟩
+
+/-- the context right after `setup()` / after `initialize_simulants()` on symbolic clocks -/
+def afterSetup (start step stop : Int) : Sim :=
+  { ctl := { st := "post_setup", setupDone := true, frozen := true, log := ["setup_components", "emit:post_setup"] },
+    clock := start, step := step, stop := stop, tlog := [start, start] }
+
+def afterInit (start step stop : Int) : Sim :=
+  { ctl := { st := "population_creation", setupDone := true, created := true, frozen := true,
+             log := ["setup_components", "emit:post_setup", "create"] },
+    clock := start - step + step, step := step, stop := stop, tlog := [start, start, start - step] }
+
+theorem setup_init (start step stop : Int) :
+    call "setup" (Ctx.init start step stop) = .ok (afterSetup start step stop) ∧
+    call "initialize_simulants" (afterSetup start step stop) = .ok (afterInit start step stop) ∧
+    Running (afterInit start step stop) :=
+  ⟨rfl, rfl, ⟨Or.inl rfl, rfl, rfl, rfl⟩⟩
+
+/-- THE WHOLE OPERATION the correspondence runs (`sim` of Driver/C08.lean): for every registration list, every start,
+every positive step and every later end, `simulate` completes in `report` with the clock on
+`start + ⌈(stop-start)/step⌉·step`, which is the first clock value at or beyond the end. -/
+theorem simulate_final (nb : Nat) (regs : List CReg) (start step stop : Int) (hh : 0 < step) (hs : start < stop)
+    (fuel : Nat) (hf : (ceilDiv (stop - start) step).toNat ≤ fuel) :
+    ∃ s calls, simulate nb regs start step stop fuel = .ok (s, calls) ∧ s.ctl.st = "report" ∧
+      s.clock = start + (ceilDiv (stop - start) step).toNat * step ∧ stop ≤ s.clock ∧ s.clock < stop + step := by
+  obtain ⟨h1, h2, hr0⟩ := setup_init start step stop
+  obtain ⟨s2, hrun, hr2, hclk, hstep, hstop, hst⟩ := ctx_run_running fuel _ hr0
+  have hcancel : start - step + step = start := by omega
+  simp only [afterInit] at hclk hstep hstop hst
+  rw [hcancel] at hclk hst
+  obtain ⟨hloop, hge, hlt⟩ := run_steps_count start stop step hh hs fuel hf
+  rw [hloop] at hclk hst
+  simp only at hclk hst
+  have hpos : 0 < (ceilDiv (stop - start) step).toNat := by
+    rcases Nat.eq_zero_or_pos (ceilDiv (stop - start) step).toNat with h0 | h0
+    · rw [h0, takeSteps] at hge; omega
+    · exact h0
+  obtain ⟨s3, s4, hfin, hrep, hst4, hclk4, _⟩ := finalize_report s2 (hst hpos) hr2
+  refine ⟨s4, (s4.ctl.log.zip s4.tlog).flatMap (fun (e, c) =>
+      if e.startsWith "emit:" then deliver nb regs (e.drop 5).toString c s4.step else []), ?_, hst4, ?_, ?_, ?_⟩
+  · simp only [simulate, h1, h2, hrun, hfin, hrep, bind, Except.bind, pure, Except.pure]
+  · rw [hclk4, hclk, takeSteps_eq]
+  · rw [hclk4, hclk]; exact hge
+  · rw [hclk4, hclk]; exact hlt
+
+/-- … and with nothing to do (the end is not after the start) the operation is refused at `finalize`, resting in
+population_creation: a run of zero steps cannot be finalised (simulation_end does not follow population_creation). -/
+theorem simulate_zero_steps_refused (nb : Nat) (regs : List CReg) (start step stop : Int) (hs : stop ≤ start)
+    (fuel : Nat) :
+    ∃ s, simulate nb regs start step stop fuel = .error (.transition, s) ∧ s.ctl.st = "population_creation" ∧
+      s.clock = start - step + step := by
+  obtain ⟨h1, h2, _⟩ := setup_init start step stop
+  have hnot : ¬ (start - step + step < stop) := by omega
+  have hrun : Viv.Ctx.run fuel (afterInit start step stop) = .ok (afterInit start step stop) := by
+    cases fuel with
+    | zero => rfl
+    | succ n =>
+      simp only [Viv.Ctx.run, cmpHolds, gen_run_cmp, afterInit]
+      simp
+      intro hlt; omega
+  refine ⟨afterInit start step stop, ?_, rfl, rfl⟩
+  simp only [simulate, h1, h2, hrun, bind, Except.bind]
+  rfl
+
+/-- split runs (`run_until(a)`, `run_for(d)`, `run()`): the three counts add up to the number of steps a single loop
+to the last bound takes, whenever the intermediate bounds do not pass the end -/
+theorem runLoop_clock (stop h : Int) (fuel : Nat) (t : Int) :
+    (runLoop stop h fuel t).2 = t + (runLoop stop h fuel t).1 * h := by
+  induction fuel generalizing t with
+  | zero => simp [runLoop]
+  | succ n ih =>
+    simp only [runLoop]
+    split
+    · simp only []
+      rw [ih (t + h), Int.natCast_succ, Int.add_mul, Int.one_mul]; omega
+    · simp
+
+theorem splitRun_final (stop h a d : Int) (fuel : Nat) (t : Int) :
+    let r := splitRun stop h a d fuel t
+    r.2.2.2 = t + ((r.1 + r.2.1 + r.2.2.1 : Nat) : Int) * h := by
+  simp only [splitRun]
+  rw [runLoop_clock stop h fuel, runLoop_clock _ h fuel (runLoop a h fuel t).2, runLoop_clock a h fuel t]
+  simp only [Int.natCast_add, Int.add_mul]
+  omega
+
+example : splitRun 9 2 3 1 100 0 = (2, 1, 2, 10) := by decide
+example : (match simulateSizes 10 [("time_step", 3, 1)] 0 2 9 [3, 1] 100 with
+    | .ok (s, _) => s.clock == 10 && s.step == 2 && s.ctl.st == "report"
+    | .error _ => false) = true := by decide
+example : deliver 10 [("time_step", 3, 1), ("time_step", 0, 2)] "time_step" 4 3 =
+    [⟨"time_step", 2, 0, 4, 7, 3⟩, ⟨"time_step", 1, 3, 4, 7, 3⟩] := by decide
+
 end Viv.Props.C08
